@@ -26,6 +26,32 @@ def readFull : Nat → Chunks → Option (Bytes × Chunks)
       | none => none
     else some (c.take (n + 1), c.drop (n + 1) :: cs)
 
+/-- implementation of `readFull` for the compiled driver: the "does the chunk fit" test walks at most `n+1`
+cells instead of the whole chunk (matters when a long chunk is consumed byte by byte); proved equal below -/
+def readFullImpl : Nat → Chunks → Option (Bytes × Chunks)
+  | 0, cs => some ([], cs)
+  | _+1, [] => none
+  | n+1, c :: cs =>
+    if (c.drop (n + 1)).isEmpty then
+      match readFullImpl (n + 1 - c.length) cs with
+      | some (r, rest) => some (c ++ r, rest)
+      | none => none
+    else some (c.take (n + 1), c.drop (n + 1) :: cs)
+
+@[csimp] theorem readFull_eq_impl : @readFull = @readFullImpl := by
+  funext n cs
+  induction cs generalizing n with
+  | nil => cases n <;> rfl
+  | cons c cs ih =>
+    cases n with
+    | zero => rfl
+    | succ n =>
+      unfold readFull readFullImpl
+      have : (c.drop (n + 1)).isEmpty = decide (c.length ≤ n + 1) := by
+        rw [Bool.eq_iff_iff]; simp [List.isEmpty_iff, List.drop_eq_nil_iff]
+      rw [this, ih]
+      simp only [decide_eq_true_eq]
+
 /-- one plain `conn.Read(b)` with `len b = n`: whatever the next chunk holds, at most `n` bytes -/
 def readOnce : Nat → Chunks → Option (Bytes × Chunks)
   | 0, cs => some ([], cs)
